@@ -75,6 +75,9 @@ int heap_is_live(const void *p);          /* p is the base of a live library all
 size_t heap_block_size(const void *p);    /* size of live block with base p, 0 if unknown */
 int heap_block_id(const void *p);
 const void *heap_block_site(const void *p);
+#define HEAP_BT_DEPTH 10
+extern int heap_bt_on;                              /* record the call chain of every request (glibc backtrace) */
+int heap_block_bt(const void *p, void **out, int n);
 typedef void (*heap_iter_cb)(void *p, size_t size, uint32_t id, const void *site, void *ud);
 void heap_iter_live(heap_iter_cb cb, void *ud);
 void heap_drain_recycled(void); /* really release everything the recycler retains */
